@@ -89,6 +89,15 @@ func TransformModuleFilesToModel( //nolint:funlen,gocognit,cyclop
 			continue
 		}
 
+		if mdl.GetSchemaVersion() != "" {
+			transformErrors = multierror.Append(transformErrors, &ModuleTransformationSingleError{
+				Msg:  "file is not a module",
+				File: module.Name,
+			})
+
+			continue
+		}
+
 		for _, typeDef := range mdl.GetTypeDefinitions() {
 			_, extension := typeDefExtensions[typeDef.GetType()]
 			if slices.Contains(types, typeDef.GetType()) && !extension {
